@@ -25,11 +25,11 @@ NEVER = ()
 HARNESSES = {}
 
 
-def reg(name, prop, tiers, cap_s, mem_gb, domain, rust, stubset='none', unwind=2, bounds='', props=None):
+def reg(name, prop, tiers, cap_s, mem_gb, domain, rust, stubset='none', unwind=2, bounds='', props=None, gen_k=None):
     assert name not in HARNESSES, name
     HARNESSES[name] = dict(prop=prop, tiers=tiers, cap_s=cap_s, mem_gb=mem_gb, domain=domain, rust=rust, stubset=stubset,
                            stubs=STUBSETS[stubset], unwind=unwind, bounds=bounds, panics=(stubset == 'panics'),
-                           props=props or [prop])
+                           props=props or [prop], gen_k=gen_k)
 
 
 SIDES = [('w', 'WHITE', 'White to move'), ('b', 'BLACK', 'Black to move')]
@@ -97,13 +97,19 @@ GENS = [('all', 'G_ALL'), ('capture', 'G_CAPTURE'), ('simple', 'G_SIMPLE'), ('si
 for gk, gc in GENS:
     for sk, sc, sd in SIDES:
         reg('c06_semilegal_gen_%s_%s' % (gk, sk), 'C06', T, 7200, 16, FULL + ' + GEN(1): mover has at most one man of each non-king kind '
-            '(opponent arbitrary); ' + sd, 'c06::semilegal_gen_exact::<_, %s, %s, 1>' % (sc, gc), 's12', 10,
+            '(opponent arbitrary); ' + sd, 'c06::semilegal_gen_exact::<_, %s, %s, 1>' % (sc, gc), 's12', 65, gen_k=1,
             bounds='GEN(1); generator loops unwound per loop (unwindset derived from cbmc --show-loops)', props=['C06', 'C19'])
 
 # ---------------------------------------------------------------- C01
 fam('c01_prefiltered', 'C01', 'c01::prefiltered_legal_exact', 's12', 65, 3600, 14, 'all semilegal moves of the group', props=['C01', 'C19'])
 fam('c01_validate', 'C01', 'c01::validate_exact', 's12', 65, 3600, 12, 'all well-formed tuples of the group', groups=GROUPS + [FOREIGN], quick=set())
 fam('c01_try_unchecked', 'C01', 'c01::try_unchecked_exact', 's12', 65, 3600, 12, 'all semilegal moves of the group', quick=set())
+
+for gk, gc in GENS:
+    for sk, sc, sd in SIDES:
+        reg('c01_legal_gen_list_%s_%s' % (gk, sk), 'C01', T, 10800, 24, FULL + ' + GEN(1); real legal::gen_%s (ArrayVec, retain) with the legality '
+            'filter abstracted (S6); %s' % (gk, sd), 'c01::legal_gen_list::<_, %s, %s, 1>' % (sc, gc), 's126', 65, gen_k=1,
+            bounds='GEN(1); composition with c01_prefiltered (filter = rules) is a one-line argument, stated in DESIGN.md C01')
 
 # ---------------------------------------------------------------- C03 / C04 / C05
 fam('c03_make_unmake', 'C03', 'c03::make_unmake_exact', 's12', 65, 3600, 12, 'all semilegal (legal or not) and null moves of the group',
@@ -123,6 +129,10 @@ fam_side('c11_validate_exact', 'C11', 'c11::validate_exact', 's12', 65, 3600, 12
 # ---------------------------------------------------------------- C07
 fam_side('c07_outcome_classification', 'C07', 'c07::outcome_classification', 's123', 65, 3000, 10, FULL)
 fam_side('c07_castling_never_only_move', 'C07', 'c07::castling_never_only_move', 's12', 65, 2400, 10, FULL + ' x both castlings')
+
+for sk, sc, sd in SIDES:
+    reg('c07_has_legal_moves_wiring_%s' % sk, 'C07', T, 10800, 24, FULL + ' + GEN(1); real has_legal_moves with the legality filter abstracted (S6); ' + sd,
+        'c07::has_legal_moves_wiring::<_, %s, 1>' % sc, 's126', 65, gen_k=1, bounds='GEN(1)', props=['C07', 'C01'])
 
 # ---------------------------------------------------------------- C10
 fam('c10_uci_struct_roundtrip', 'C10', 'c10::uci_struct_roundtrip', 's12', 65, 2400, 10, 'all semilegal moves of the group', quick='all')
@@ -202,7 +212,7 @@ for hk, hc in [('v', 'MV'), ('h', 'MH')]:
                 'c18::mirror_move::<_, %s, %s, {crate::c18::%s}>' % (sc, gc, hc), 's12', 65)
     for sk, sc, sd in SIDES:
         reg('c18_mirror_outcome_%s_%s' % (hk, sk), 'C18', QT, 5400, 14, FULL + '; ' + sd, 'c18::mirror_outcome_eq::<_, %s, {crate::c18::%s}>' % (sc, hc), 's123', 65)
-        reg('c18_mirror_gen_%s_%s' % (hk, sk), 'C18', T, 10800, 24, FULL + ' + GEN(1); ' + sd, 'c18::mirror_gen::<_, %s, {crate::c18::%s}, 1>' % (sc, hc), 's12', 10,
+        reg('c18_mirror_gen_%s_%s' % (hk, sk), 'C18', T, 10800, 24, FULL + ' + GEN(1); ' + sd, 'c18::mirror_gen::<_, %s, {crate::c18::%s}, 1>' % (sc, hc), 's12', 65, gen_k=1,
             bounds='GEN(1)')
 
 PROPS = ['C%02d' % i for i in range(1, 21)]
@@ -213,7 +223,7 @@ def harnesses_for(prop, tier):
 
 
 # properties that also run engine B (MIR -> SMT-LIB)
-ENGINE_B = set()
+ENGINE_B = {'C15'}
 
 # prose: what lies outside the bounds of each property's check
 OUTSIDE = {}
